@@ -267,6 +267,67 @@ Theorem c06_obs_identity_is_spec : forall env q m u,
 Proof. exact identity_okb_iff. Qed.
 Print Assumptions c06_obs_identity_is_spec.
 
+(* The login route as ISSUER of sessions.  A login request is a request (method, Origin/Referer, client
+   certificate, auth_cookie, Authorization: Basic header) plus the form's user name / password; the login
+   credential is the header if there is one, else the form.  Whenever the handler mints a session (u, l):
+   l is the password level EXACTLY, the login credential is a password the backend verified, and u is the
+   (normalised) user of that credential - for every auth_cookie the request arrives with (none, the same
+   user's, ANOTHER user's; password only, with U2F / TOTP / VIP / any bits; valid, expired, foreign, junk),
+   every client certificate, every origin and clock.  Second-factor bits are never inherited from what is
+   attached to a login. *)
+Theorem c06_login_mints_password_only : forall now lim lq u l,
+  login_handler now lim lq = LMint u l ->
+  l = bPassword /\ exists b, login_credential lq = Some b /\ b_ok b = true /\ u = b_user b.
+Proof. exact login_mints_password_only. Qed.
+Print Assumptions c06_login_mints_password_only.
+
+(* ... and the attached credentials are IGNORED altogether: two login requests that agree on the method, the
+   Authorization header and the form get the same answer (refusal code, or minted subject and level),
+   whatever auth_cookie, client certificate, Origin/Referer and clock each of them has *)
+Theorem c06_login_ignores_attached : forall now now' lim lq lq',
+  q_meth (lq_req lq) = q_meth (lq_req lq') ->
+  k_basic (q_cred (lq_req lq)) = k_basic (q_cred (lq_req lq')) ->
+  lq_form lq = lq_form lq' ->
+  login_handler now lim lq = login_handler now' lim lq'.
+Proof. exact login_ignores_attached. Qed.
+Print Assumptions c06_login_ignores_attached.
+
+(* at the gates: the session a login minted, presented on its own, is refused by every endpoint whose mask has
+   no password bit - at every clock, with every method / origin / validity window of the cookie *)
+Theorem c06_login_session_needs_second_factor : forall now lim lq u l now' lim' deny required m o nbf exp iat,
+  login_handler now lim lq = LMint u l -> hasb bPassword required = false ->
+  exists code, check_auth now' lim' deny required
+                 {| q_meth := m; q_origin := o; q_tls := None; q_cred := cookie_only (session_token u l nbf exp iat) |} = Refuse code.
+Proof. exact login_session_needs_second_factor. Qed.
+Print Assumptions c06_login_session_needs_second_factor.
+
+(* the login row of the route table is this issuer (the route cases carry the form as k_basic) *)
+Theorem c06_login_row_is_issuer : forall r env q e,
+  find_row "runtimeState.loginHandler" = Some r -> In e (snd (run env q (rt_steps r) None)) ->
+  exists u, login_handler (e_now env) (e_limiter env) {| lq_req := q; lq_form := None |} = LMint u bPassword.
+Proof. intros r env q e F. vm_compute in F. inversion F; subst r. exact (login_row_is_issuer env q e). Qed.
+Print Assumptions c06_login_row_is_issuer.
+
+(* sharpness: a login handler that keeps the factors of the session the request arrives with
+   ([login_handler_gen true], NOT the code of the tree) mints for the user whose password was typed a level with
+   the U2F bit - outside [login_spec], and although no credential of the request proves that user at any level
+   with that bit (the cookie is another user's); the handler of the tree mints the password level there *)
+Theorem c06_login_carry_refuted :
+  exists now lim lq u l,
+    login_handler_gen true now lim lq = LMint u l /\ hasb l bU2F = true /\ ~ login_spec lq u l /\
+    (forall l', hasb l' bU2F = true -> ~ proves now [] (lq_req lq) u l') /\
+    login_handler now lim lq = LMint u bPassword.
+Proof. exact login_carry_refuted. Qed.
+Print Assumptions c06_login_carry_refuted.
+
+(* the boolean the login case file evaluates on an observed Set-Cookie is the conclusion of
+   c06_login_mints_password_only *)
+Theorem c06_obs_login_is_spec : forall lq u l,
+  login_conclusion lq u l = true <->
+  (l = bPassword /\ exists b, login_credential lq = Some b /\ b_ok b = true /\ u = b_user b).
+Proof. exact login_conclusion_iff. Qed.
+Print Assumptions c06_obs_login_is_spec.
+
 (* ---- non-vacuity ---- *)
 Definition inside_cert : tlsx :=
   {| x_chains := [role_chain]; x_cn := 4; x_key := 1; x_nb := 0%Z; x_ip_error := false;
@@ -364,3 +425,18 @@ Example c06_nonvacuous_routes :
              snd (run env0 (with_cert POST outside_cert) (rt_steps r) None) = [] /\
              snd (run env0 (with_cert POST user_cert) (rt_steps r) None) = []).
 Proof. vm_compute. repeat split; eexists; repeat split; reflexivity. Qed.
+
+(* the login route: Bob's password with nothing attached, with Eve's U2F session attached, with Bob's own
+   U2F session attached, with a client certificate: always (bob, password); a wrong password, a PUT: nothing *)
+Example c06_nonvacuous_login :
+  let bob ok := Some {| b_user := 2; b_ok := ok; b_err := false |} in
+  let lq m ck hdr form c := {| lq_req := {| q_meth := m; q_origin := NoOrigin; q_tls := c; q_cred := {| k_cookie := ck; k_basic := hdr |} |}; lq_form := form |} in
+  login_handler 100 true (lq POST None None (bob true) None) = LMint 2 bPassword /\
+  login_handler 100 true (lq POST (Some (good_token 1 (N.lor bPassword bU2F))) None (bob true) None) = LMint 2 bPassword /\
+  login_handler 100 true (lq POST (Some (good_token 2 (N.lor bPassword bU2F))) None (bob true) None) = LMint 2 bPassword /\
+  login_handler 100 true (lq GET (Some junk_token) (bob true) None (Some user_cert)) = LMint 2 bPassword /\
+  login_handler 100 true (lq POST None (bob true) good_basic None) = LMint 2 bPassword /\
+  login_handler 100 true (lq POST (Some (good_token 1 bAny)) (bob false) good_basic None) = LRefuse 401 /\
+  login_handler 100 true (lq POST (Some (good_token 2 bAny)) None None None) = LRefuse 401 /\
+  login_handler 100 true (lq OTHER None None (bob true) None) = LRefuse 405.
+Proof. vm_compute. repeat split; reflexivity. Qed.
